@@ -204,7 +204,11 @@ func (e *Exec) step(st *State, f *Frame, instr ssa.Instruction) bool {
 			it = &IterData{Map: xv.Obj}
 			if xv.Obj != 0 {
 				md := e.getObject(st, xv.Obj).V.(*MapData)
-				it.Keys = append([]Value(nil), md.Keys...)
+				for i := range md.Keys {
+					if e.entryPresent(st, md, i) {
+						it.Keys = append(it.Keys, md.Keys[i])
+					}
+				}
 			}
 		default:
 			panic(fmt.Sprintf("Range over %T", x))
@@ -560,7 +564,7 @@ func (e *Exec) next(st *State, f *Frame, in *ssa.Next) bool {
 	var val Value
 	found := false
 	for i, mk := range md.Keys {
-		if mk == k || e.sameConcrete(mk, k) {
+		if (mk == k || e.sameConcrete(mk, k)) && e.entryPresent(st, md, i) {
 			val = md.Vals[i]
 			found = true
 			break
